@@ -3,6 +3,10 @@ CONSTANTS
   Ds = {1, 2}
   MaxClock = 1000
   W0 = 1700000
+  W0B = 9000000
+  Ambients = {"A"}
+  Threads = {"main"}
+  Resolution = "captured"
   Depth = 9
 SPECIFICATION RSpec
 INVARIANT Emit
